@@ -108,5 +108,34 @@ def reconf : Op
     some [.list r.2, ofStrs (freeOf names nan r.1.cfg)]
   | _ => none
 
-def ops : List (String × Op) := [("C19.seq", seq), ("C19.world", world), ("C19.reconf", reconf)]
+def parseFAct (v : Val) : Option FAct := do
+  match v with
+  | .list [.str "build", s, d] => some (.build (← s.nat?) (← d.nat?))
+  | .list [.str "sort", a, o] => some (.sort (← a.nat?) (← o.nats?))
+  | _ => none
+
+/-- `C19.construct n order program cells` → the measurement columns (numbers 0 … n-1 of the caller's data)
+    held, after the program, by the filter object in every listed cell; cell 0 is the caller's filter -/
+def constructOp : Op
+  | [nV, orderV, progV, cellsV] => do
+    let n ← nV.nat?
+    let order ← orderV.nats?
+    let prog ← (← progV.list?).mapM parseFAct
+    let cells ← cellsV.nats?
+    -- (kept as a table, re-read into a function after every step: see `world`)
+    let mentioned := (0 :: cells ++ prog.foldr (fun s acc => match s with
+      | .build a b => a :: b :: acc
+      | .sort a _ => a :: acc) []).eraseDups
+    let ofTable : List (Nat × List Nat) → FStore Nat := fun tbl b =>
+      match tbl.find? (·.1 == b) with
+      | some e => e.2
+      | none => []
+    let toTable : FStore Nat → List (Nat × List Nat) := fun σ => mentioned.map (fun k => (k, σ k))
+    let σ0 : FStore Nat := fun b => if b = 0 then List.range n else []
+    let r := prog.foldl (fun tbl s => toTable (fact order (ofTable tbl) s)) (toTable σ0)
+    some [.list (cells.map (fun k => ofNats (ofTable r k)))]
+  | _ => none
+
+def ops : List (String × Op) := [("C19.seq", seq), ("C19.world", world), ("C19.reconf", reconf),
+  ("C19.construct", constructOp)]
 end ChiDriver.C19
